@@ -101,7 +101,7 @@ func NewReplayT(choices []int) *T {
 
 // MaxChoices bounds the number of decisions of one run; exceeding it aborts the run
 // (a shrink candidate is then simply rejected).
-const MaxChoices = 2_000_000
+const MaxChoices = 8_000_000
 
 type BudgetExceeded struct{}
 
